@@ -27,6 +27,9 @@ RULE = (
 ASSUMPTIONS = [
     "lxml's XML parser and numpy's text reader are trusted; the reference reading is mc/c19_model.py (value, dots, "
     "tuplet ratio; position = sum of the preceding durations of the layer/spine inside the bar grid)",
+    "MEI @staff (cross-staff notation): the staff of a note/rest/chord is its own @staff when written, else the enclosing <staff>; "
+    "for a member of a chord: the @staff of the <note>, else the @staff of the <chord>, else the enclosing <staff> (the statement on "
+    "the more specific element counts; this is also how partitura's own writer encodes a chord split between two staves)",
     "MEI: every staffDef is a part, staff number = staff@n, voice = layer@n (compared exactly); kern: only the "
     "partition of notes into voices is compared (voice numbers are the reader's choice), parts may come in spine "
     "order or reversed",
@@ -45,7 +48,7 @@ ASSUMPTIONS = [
     "the kern writer cannot express grace notes (it merges them into the token of the main note): grace notes are "
     "only round-tripped through MEI",
     "export->load: parts have voice numbers that are not shared between staves (in the staffmove spaces a voice may "
-    "sit on another staff in another measure, or have single notes on the other staff), gap-free voices, equal-duration chords, Tuplet "
+    "sit on another staff in another measure, or have single notes / single members of a chord on the other staff), gap-free voices, equal-duration chords, Tuplet "
     "objects for tuplet groups and symbolic durations on every note (what the two writers can express); the "
     "comparison is per note object (onset, duration in quarters, MIDI pitch, staff), ties not merged",
     "export->load, note values left to the library: a note/chord/rest without symbolic_duration is exportable when its "
@@ -959,13 +962,15 @@ def part_spec(doc):
                         else:
                             ties = e.get("tie") or [0] * len(e["p"])
                             new_open = {}
-                            for (step, alter, octv), t in zip(e["p"], ties):
+                            # 'pst': a staff of its own for single members of a chord (cross-staff chord)
+                            for (step, alter, octv), t, own in zip(e["p"], ties, e.get("pst") or [None] * len(e["p"])):
                                 nid[0] += 1
                                 oid = "n%d" % nid[0]
+                                nstaff = own or e.get("st") or lstaff
                                 o = {"k": "grace" if e["k"] == "g" else "note", "id": oid, "s": s_t, "e": e_t, "step": step,
-                                     "alter": alter, "oct": octv, "voice": ly["n"], "staff": e.get("st") or lstaff, "sym": sym}
+                                     "alter": alter, "oct": octv, "voice": ly["n"], "staff": nstaff, "sym": sym}
                                 objs.append(o)
-                                expected.append((p, d, M.midi_pitch(step, alter, octv), e.get("st") or lstaff))
+                                expected.append((p, d, M.midi_pitch(step, alter, octv), nstaff))
                                 pk = (step, alter, octv)
                                 if e["k"] != "g":
                                     if pk in open_t:
@@ -1112,7 +1117,7 @@ def _empty_lower_staff(doc):
             for ly in st["layers"]:
                 home = ly["sm"][mi] if ly.get("sm") else st["n"]
                 for leaf, _ in M.flatten(ly["m"][mi]):
-                    used.add(leaf.get("st") or home)
+                    used.update(own or leaf.get("st") or home for own in (leaf.get("pst") or [None]))
         if used and used != set(range(1, max(used) + 1)):
             return True
     return False
@@ -1165,6 +1170,45 @@ def g_roundtrip_staffmove(fmt, tier, seed):
     yield from family(STAFF_OPTS[:2], 2, 3, (0, 2))
     # three voices, 2 measures, whole-measure placements
     yield from family(STAFF_OPTS[:2], 3, 2, (1,))
+
+
+KERN_CHORDSTAFF_BLOCKS = 16  # quick tier, kern writer (0.1-0.3 s per part): one hash block of the family
+
+
+def g_roundtrip_chordstaff(fmt, tier, seed):
+    """two-staff parts in which one voice has a chord whose members are Note objects on different staves (a chord
+    split between the hands): every assignment of staff 1/2 to the 2 or 3 members (the uniform ones included) x chord
+    at each of 3 positions x plain / dotted value x the rest of the voice on staff 1 / 2 x a second voice on staff 2
+    present / absent; two consecutive 2-member chords with every assignment for both; the chord as the middle member of a
+    triplet"""
+    def mk(v1, home, other):
+        staves = [{"n": 1, "clef": ["G", 2], "layers": [{"n": 1, "m": [v1, [lf("n", 1, 0, 3)]], "sm": [home, home]}]},
+                  {"n": 2, "clef": ["F", 4], "layers": []}]
+        if other:
+            staves[1]["layers"].append({"n": 2, "m": [[lf("n", 2, 0, 4), lf("n", 2, 0, 5)], [lf("n", 1, 0, 6)]]})
+        return {"f": "rt", "w": fmt, "doc": {"meter": [4, 4], "key": [0, None], "nm": 2, "staves": staves, "mei": {}}}
+
+    def family():
+        for home in (1, 2):
+            for other in (True, False):
+                for size in (2, 3):
+                    for pst in itertools.product((1, 2), repeat=size):
+                        for pos in range(3):
+                            for dots in (0, 1):
+                                slots = [lf("n", 4, 0, 0), lf("n", 4, 0, 1), lf("n", 4, 0, 2), lf("r", 4)]
+                                slots[pos] = _cs_chord(4, CS_PITCH[size], None, pst, dots)
+                                if dots:
+                                    slots[pos + 1] = dict(slots[pos + 1], v=8)
+                                yield mk(slots, home, other)
+                for pst1 in itertools.product((1, 2), repeat=2):
+                    for pst2 in itertools.product((1, 2), repeat=2):
+                        yield mk([_cs_chord(4, CS_PITCH[2], None, pst1), _cs_chord(4, CS_PITCH_B, None, pst2), lf("n", 4, 0, 3),
+                                  lf("r", 4)], home, other)
+                    yield mk(_cs_slots(0, "tup", lambda v: _cs_chord(v, CS_PITCH[2], None, pst1)), home, other)
+
+    for c in family():
+        if fmt == "mei" or tier == "thorough" or block_of(c, KERN_CHORDSTAFF_BLOCKS) == seed % KERN_CHORDSTAFF_BLOCKS:
+            yield c
 
 
 # note values the library chooses itself: every single value (type x dots) of these lists
@@ -1371,6 +1415,76 @@ def g_mei_staff_numbers(tier, seed):
                     yield mk(staves, nm, grp)
 
 
+# ---------------------------------------------------------------------------------------------
+# sub-spaces: the staff of chord members (cross-staff chords)
+#
+# A chord can be placed on another staff as a whole (@staff on <chord>) and every member can carry a @staff of its own
+# (a chord that is split between the staves of a piano system).  The families above only have @staff on the chord or
+# on a single note; here every combination of the two levels is enumerated.
+
+CS_PITCH = {2: [["C", None, 4], ["E", None, 4]], 3: [["G", None, 2], ["D", None, 3], ["B", 0, 3]]}
+CS_PITCH_B = [["B", -1, 3], ["F", 1, 4]]
+CS_PAIRS_QUICK = [(1, 2)]
+CS_PAIRS_THOROUGH = [(1, 2), (2, 5), (1, 12)]
+CS_WRAPS = ["plain", "beam", "tup"]
+
+
+def _cs_chord(v, pitches, st, pst, d=0):
+    """a chord with @staff st on the <chord> (None: none) and pst[i] on its i-th <note> (None: none)"""
+    e = {"k": "c", "v": v, "d": d, "p": [list(p) for p in pitches]}
+    if st:
+        e["st"] = st
+    if any(pst):
+        e["pst"] = list(pst)
+    return e
+
+
+def _cs_slots(pos, wrap, chord_of):
+    """a 4/4 measure of three quarter notes and a quarter rest whose slot `pos` holds the chord: as a quarter, as the
+    first of two beamed eighths, or as the middle member of an eighth triplet (chord_of(v) makes the chord)"""
+    slots = [lf("n", 4, 0, 0), lf("n", 4, 0, 1), lf("n", 4, 0, 2), lf("r", 4)]
+    if wrap == "plain":
+        slots[pos] = chord_of(4)
+    elif wrap == "beam":
+        slots[pos] = {"k": "beam", "ev": [chord_of(8), lf("n", 8, 0, 5)]}
+    else:
+        slots[pos] = {"k": "tup", "num": 3, "nb": 2, "ev": [lf("n", 8, 0, 5), chord_of(8), lf("n", 8, 0, 6)]}
+    return slots
+
+
+def g_mei_chord_staff(tier, seed):
+    """2 staves (a, b); one layer of one of them holds a chord whose <chord> element carries @staff in {none, own staff,
+    other staff} and each of whose 2 or 3 <note> children carries @staff in {none, own staff, other staff} - the full
+    product of the two levels - at each of 3 positions of the measure, as a quarter / inside a beam / inside a triplet,
+    with the layer under the first or the second staff; and two consecutive 2-note chords with the full product for
+    both (a following note and rest carry nothing).  Expected staff of a chord member: its own @staff, else the chord's,
+    else the enclosing staff; everything else as in the other MEI spaces"""
+    pairs = CS_PAIRS_THOROUGH if tier == "thorough" else CS_PAIRS_QUICK
+    for sa, sb in pairs:
+        for home in (0, 1):
+            hs, other = (sa, sb) if home == 0 else (sb, sa)
+            alpha = [None, hs, other]
+
+            def mk(evs):
+                fill = [lf("n", 1, 0, 4)]
+                staves = [{"n": sa, "clef": ["G", 2], "layers": [{"n": 1, "m": [evs if home == 0 else fill]}]},
+                          {"n": sb, "clef": ["F", 4], "layers": [{"n": 1, "m": [evs if home == 1 else fill]}]}]
+                return {"f": "mei", "doc": {"meter": [4, 4], "key": [0, None], "nm": 1, "staves": staves, "mei": {}}}
+
+            for size in (2, 3):
+                for st in alpha:
+                    for pst in itertools.product(alpha, repeat=size):
+                        for pos in range(3):
+                            for wrap in CS_WRAPS:
+                                yield mk(_cs_slots(pos, wrap, lambda v: _cs_chord(v, CS_PITCH[size], st, pst)))
+            for st1 in alpha:
+                for pst1 in itertools.product(alpha, repeat=2):
+                    for st2 in alpha:
+                        for pst2 in itertools.product(alpha, repeat=2):
+                            yield mk([_cs_chord(4, CS_PITCH[2], st1, pst1), _cs_chord(4, CS_PITCH_B, st2, pst2),
+                                      lf("n", 4, 0, 3), lf("r", 4)])
+
+
 RT_STAFF_SETS = [[12], [1, 12], [10, 11], [2, 100]]
 RT_SIZES_QUICK = [3, 9, 10, 12]
 RT_SIZES_THOROUGH = [3, 9, 10, 11, 12, 16, 24]
@@ -1539,6 +1653,13 @@ def spaces(tier, seed):
               "(save_mei raises there)" if "mei-export-empty-staff" in FIXES_PENDING else ""), "mei"),
         sp("roundtrip-kern-staffmove", g_roundtrip_staffmove, "the same parts (every voice/staff pair becomes a spine), save_kern -> load_kern; "
            "quick: hash block VERIF_SEED of %d, thorough: all" % KERN_STAFFMOVE_BLOCKS, "kern"),
+        sp("roundtrip-mei-chordstaff", g_roundtrip_chordstaff, "2-staff parts, save_mei -> load_mei, one voice with a chord whose 2 or 3 member "
+           "notes are placed on staff 1/2 independently (all 2^2 + 2^3 assignments, split and uniform) x chord at each of 3 positions of a "
+           "4-slot measure x plain/dotted quarter x the other events of the voice on staff 1/2 x second voice on staff 2 present/absent; two "
+           "consecutive 2-member chords with all 4 x 4 assignments; the chord as middle member of an eighth triplet (4 assignments); a "
+           "second measure of whole notes", "mei"),
+        sp("roundtrip-kern-chordstaff", g_roundtrip_chordstaff, "the same parts, save_kern -> load_kern; quick: hash block VERIF_SEED of %d, "
+           "thorough: all" % KERN_CHORDSTAFF_BLOCKS, "kern"),
         sp("roundtrip-mei-estimated", g_roundtrip_estimated, "1 voice, notes/chords/rests built WITHOUT symbolic_duration (the writer takes the note "
            "value the library estimates from the numeric duration), save_mei -> load_mei: every {note,chord,rest} x {breve..64th} x {0..3 dots} "
            "+ a quarter note with explicit value; all pairs over {note,rest} x {whole..16th} x {0..3 dots} + the quarter (quick: hash block "
@@ -1562,6 +1683,12 @@ def spaces(tier, seed):
         sp("mei-staff-numbers", g_mei_staff_numbers, "1 staff x staffDef@n in the same staff-number alphabet x layer@n {1,2,10,12} x staffGrp "
            "{flat, nested}; 2 staves x all ordered pairs a != b of %s x {flat, nested} x {plain, one note of staff a with staff=\"b\"}; N staves "
            "1..N, N in %s (thorough: %s) x {flat, nested} x 1-2 measures x layer@n {1, staff number}" % (STAFF_PAIR_NUMS, ORCH_SIZES_QUICK, ORCH_SIZES_THOROUGH)),
+        sp("mei-chord-staff", g_mei_chord_staff, "staff of chord members, 2 staves (a, b) = (1, 2) (thorough: also (2, 5), (1, 12)), the layer "
+           "with the chord under staff a or b: <chord @staff> in {absent, own staff, other staff} x <note @staff> of each of its 2 or 3 "
+           "members in {absent, own, other} (full product 3 x 3^2 + 3 x 3^3) x chord in slot 1-3 of a 4-slot measure x {quarter, first of "
+           "two beamed eighths, middle of an eighth triplet}; two consecutive 2-note chords with the full product for both (27 x 27) "
+           "followed by a note and a rest without @staff; expected staff of a member: its own @staff, else the chord's, else the <staff> "
+           "it is encoded in"),
         sp("roundtrip-mei-staves", g_roundtrip_staves, "save_mei -> load_mei of parts with one voice per staff: staves 1..N, N in %s (thorough: %s) x "
            "1-2 measures x Clef objects {every staff, staves 1-2 only}; staff sets %s x 1-2 measures"
            % (RT_SIZES_QUICK, RT_SIZES_THOROUGH, RT_STAFF_SETS), "mei"),
